@@ -45,6 +45,7 @@ class StepFS(FakeFS):
         self.budget = None          # crash budget
         self.steps = 0              # steps executed so far
         self.crashed = False
+        self.dead = False
         self.rmtree_reverse = False
         # timeline mode
         self.tl = None              # path -> list of successive FState|None
@@ -57,10 +58,12 @@ class StepFS(FakeFS):
     def _step(self, path=None, st=None):
         if self.tl is not None:
             self.finish_timeline()
+        if self.dead:
+            raise Crash()          # the process is gone: no finally / __exit__ block can write any more
         if self.budget is not None:
             if self.budget <= 0:
                 self.crashed = True
-                self.budget = None
+                self.dead = True
                 raise Crash()
             self.budget -= 1
         self.steps += 1
